@@ -89,9 +89,12 @@ var props = map[string]propSpec{
 	}, Assumptions: with("AEAD assumption: a ciphertext value different from the sealed one never opens (bit flips, truncation and extension are 'a different value'); AES-GCM itself is not encoded", "the aead wrapper of go-kms-wrapping (SetConfig, options, Encrypt, Decrypt incl. its unchecked [:12] split) is executed from its real SSA"),
 		Explanation: "Encrypt/DecryptMessage with the aead dependency from SSA: arbitrary envelopes, binding to key and key ID incl. previous keys, modified ciphertexts, node-side/server-side key agreement in both directions"},
 	"C12": {Harnesses: []harnessSpec{
-		{Pkg: "types", Fn: "VerifC12NodeInfo", Validate: 2},
-		{Pkg: "types", Fn: "VerifC12Token", Validate: 1},
-	}, Assumptions: with(), Explanation: "Store with a wrapper over a recording storage with secrecy obligation"},
+		{Pkg: "types", Fn: "VerifC12NodeInfo", Validate: 8, MustReach: []string{"loaded", "load-refused"}},
+		{Pkg: "types", Fn: "VerifC12NodeCreds", Validate: 8, MustReach: []string{"loaded", "load-refused"}, ShardBits: 2},
+		{Pkg: "types", Fn: "VerifC12Roots", Validate: 8, MustReach: []string{"loaded", "load-refused"}},
+		{Pkg: "types", Fn: "VerifC12Token", Validate: 8, MustReach: []string{"loaded", "load-refused"}},
+	}, Assumptions: with("secrecy is a derivability check on provenance terms (a secret may reach storage only below an AEAD seal or a one-way function); natively replayed as bytes.Contains on the marshalled message", "the storage wrapper is a real go-kms-wrapping aead wrapper executed from SSA"),
+		Explanation: "Store/Load of all four record types with a storage wrapper over a recording storage: secrecy of every private key / nonce / creation time, round trip, refusal without or with another wrapper, transplanted sealed fields"},
 	"C13": {Harnesses: []harnessSpec{
 		{Pkg: "rotation", Fn: "VerifC13RotateFaults", Validate: 16},
 		{Pkg: "registration", Fn: "VerifC13TokenFetchFaults", Validate: 8},
